@@ -345,3 +345,69 @@ func ZZVerifC19TwoLayouts() {
 	}
 	nd.Reach("C19/twolayouts-end")
 }
+
+// zzSplit writes the two definitions of a layer under dir: the first into
+// dir/m.tmpl, the second (how) into the same file, into a sub-directory that
+// sorts before m.tmpl, into one that sorts after it, or - together with a
+// copy of the first - into two sub-directories with no file beside them.
+func zzSplit(fs filesystem.Filespace, dir string, l zzLayer, how int) {
+	var first, second zzLayer
+	seen := false
+	for i, b := range l {
+		if b == "" {
+			continue
+		}
+		if !seen {
+			first[i], seen = b, true
+		} else {
+			second[i] = b
+		}
+	}
+	put := func(p string, l zzLayer) {
+		nd.Assume(fs.WriteFile(p, []byte(zzFile(l)), filesystem.DefaultUnixFileMode) == nil)
+	}
+	switch how {
+	case 0:
+		put(dir+"/m.tmpl", l)
+	case 1:
+		put(dir+"/a/x.tmpl", second)
+		put(dir+"/m.tmpl", first)
+	case 2:
+		put(dir+"/m.tmpl", first)
+		put(dir+"/z/x.tmpl", second)
+	default:
+		put(dir+"/a/x.tmpl", first)
+		put(dir+"/z/deep/x.tmpl", second)
+	}
+}
+
+// ZZVerifC19Tree: the definitions of the helper, layout and view layers are
+// spread over files and sub-directories of their directory in every
+// combination (a layer's "own" definitions are all those under its
+// directory): the view, the layout and the base show the same tables as when
+// each layer is one file, caching on or off, asked twice.
+func ZZVerifC19Tree() {
+	fs, _ := memfs.NewFilespace()
+	var helper, layout, viewV, viewW zzLayer
+	helper[0], helper[1] = "H-a", "H-b"
+	layout[1], layout[2] = "L-b", "L-c"
+	viewV[2], viewV[3] = "V-c", "V-d"
+	viewW[3], viewW[0] = "W-d", "W-a"
+	zzSplit(fs, "helpers", helper, nd.Choose("helper-split", 4))
+	zzSplit(fs, "layouts/L", layout, nd.Choose("layout-split", 4))
+	zzSplit(fs, "views/v", viewV, nd.Choose("view-split", 4))
+	zzSplit(fs, "views/w", viewW, 0)
+	cached := nd.Choose("cached", 2) == 1
+	p := NewProvider(fs, "helpers", "layouts/{name}", "views/{name}", ".tmpl", nil, cached)
+	for round := 0; round < 2; round++ {
+		got, ok := zzViewTable(p, "v")
+		nd.Assert(ok && got == zzOverlay(helper, layout, viewV), "C19/tree-view-layering")
+		got, ok = zzViewTable(p, "w")
+		nd.Assert(ok && got == zzOverlay(helper, layout, viewW), "C19/tree-other-view-layering")
+		got, ok = zzLayoutTable(p)
+		nd.Assert(ok && got == zzOverlay(helper, layout), "C19/tree-layout")
+		got, ok = zzBaseTable(p)
+		nd.Assert(ok && got == helper, "C19/tree-base")
+	}
+	nd.Reach("C19/tree-end")
+}
